@@ -845,6 +845,20 @@ def run(ctx):
                        "A:[Q:I:3|0,1,0,0,0,0,0,0;Q:I:1|0,1,0,0,0,0,0,0;Q:I:2|0,1,0,0,0,0,0,0]" if _f not in ("prod",) else "A:[I:30;I:20;I:60]", "%s(a) leaves a unchanged (comprehension over a)" % _f))
     _items += [(["2!..4"], "A:[I:2;I:3;I:4]", "lazy lower bound"), (["sum(3!..10)"], "I:40", "lazy lower bound"), (["4!..3"], "A:[]", "lazy lower bound above the upper bound"),
                (["1..3!"], "A:[I:1;I:2;I:3;I:4;I:5;I:6]", "lazy upper bound"), (["3!..C(5,2)"], "A:[I:6;I:7;I:8;I:9;I:10]", "lazy bounds")]
+    # sizes no small random expression reaches: thousands of elements through ranges, aggregates, comprehensions, membership
+    _items += [(["sum(1..5000)"], "I:%d" % (5000 * 5001 // 2), "a range of 5000 elements"), (["size(1..12000)"], "I:12000", "a range of 12000 elements"),
+               (["max(1..7000) - min(1..7000)"], "I:6999", "extremes of 7000 elements"), (["median(1..3001)"], "I:1501", "median of 3001 elements"),
+               (["median(1..3000)"], "F:3001/2", "median of 3000 elements"), (["mean(1..4000)"], "F:4001/2", "mean of 4000 elements"),
+               (["sum({x*x : x in 1..3000})"], "I:%d" % sum(x * x for x in range(1, 3001)), "a comprehension over 3000 elements"),
+               (["size({x : x in 1..6000, x % 7 == 0})"], "I:%d" % (6000 // 7), "a filter over 6000 elements"),
+               (["sum({x*y : x in 1..3000, y in 1..3000})"], "I:%d" % sum(x * x for x in range(1, 3001)), "two generators of 3000 elements side by side"),
+               (["size({x : x in 1..4000, y in 2..4001, x < y, y % 2 == 0})"], "I:2000", "two generators and two conditions over 4000 elements"),
+               (["2999 in 1..3000"], "I:1", "membership at the far end"), (["3001 in 1..3000"], "I:0", "membership beyond the far end"),
+               (["sum(range(0, 1000, 1/3))"], "I:1500500", "3000 fractional steps"),
+               (["size(range(0, 1000, 1/3))"], "I:3001", "3000 fractional steps"),
+               (["a = 1..2500", "b = {x : x in a, x > 2400}", "sum(b)"], "I:%d" % sum(range(2401, 2501)), "a long array kept in a variable"),
+               (["sum({" + ", ".join(str(i) for i in range(1, 1501)) + "})"], "I:%d" % (1500 * 1501 // 2), "an array literal of 1500 elements"),
+               (["max({" + ", ".join("%d m" % i for i in range(1, 1201)) + "}) to km"], "F:6/5", "an array literal of 1200 quantities")]
     C.expect_sessions(ctx["report"], ctx["rundir"], "C12", _items)
     rep, tier, seed = ctx["report"], ctx["tier"], ctx["seed"]
     rng = random.Random(seed * 65537 + 12)
